@@ -20,6 +20,7 @@ type CheckDef struct {
 	Outside     []string
 	Assumptions []string
 	Dual        bool // counterexamples are replayed under both build configurations and compared
+	Filter      func(assertID string) bool // which assertion ids belong to this property (nil = all)
 }
 
 var checkDefs = map[string]*CheckDef{}
@@ -119,6 +120,8 @@ func cmdCheck(args []string) int {
 	}
 	var all []tapeRef
 	var inconclusive []string
+	otherProp := map[string]int{}
+	spurious := 0
 	tot := JobResult{EndCounts: map[string]int{}, Events: map[string]int{}, Funcs: map[string]int{}, Reached: map[string]int{}}
 	for _, j := range jobs {
 		r := &j.res
@@ -156,6 +159,10 @@ func cmdCheck(args []string) int {
 			inconclusive = append(inconclusive, j.ID+": no path executed")
 		}
 		for i := range r.Failures {
+			if def.Filter != nil && !def.Filter(r.Failures[i].Tape.Expect.Fail) {
+				otherProp[r.Failures[i].Tape.Expect.Fail]++
+				continue
+			}
 			all = append(all, tapeRef{r.Failures[i].Tape, j, &r.Failures[i]})
 		}
 		for i := range r.KnownHits {
@@ -168,6 +175,81 @@ func cmdCheck(args []string) int {
 		if len(r.Reached) == 0 && len(r.Failures) == 0 && len(r.KnownHits) == 0 {
 			inconclusive = append(inconclusive, j.ID+": vacuous (no reach label was hit)")
 		}
+	}
+
+	// ---- tapes from paths that used the hash summary: re-run concretely with the real hash ----
+	// (the solver's model fixes the bytes; the uninterpreted hash values it chose need not be the
+	// real ones, so the concrete outcome is recomputed by the executor in interpreter mode)
+	{
+		var cj []*Job
+		var idx []int
+		for i, tr := range all {
+			if tr.tp.Summarised {
+				j := mkJob(tr.job.ID+"#concrete", tr.job.Harness, tr.job.Pkg, tr.job.Tags, tr.job.Params)
+				j.Property = prop
+				j.Unwind = tr.job.Unwind
+				j.Fixed = tr.tp.Inputs
+				j.MaxSteps = tr.job.MaxSteps
+				cj = append(cj, j)
+				idx = append(idx, i)
+			}
+		}
+		if len(cj) > 0 {
+			s2 := NewSched(timeout)
+			s2.worlds = s.worlds
+			s2.runAll(cj, workers)
+			for k, j := range cj {
+				i := idx[k]
+				orig := all[i]
+				var got *Tape
+				var gotFail *Failure
+				if len(j.res.Failures) > 0 {
+					gotFail = &j.res.Failures[0]
+					got = gotFail.Tape
+				} else if len(j.res.Witnesses) > 0 {
+					got = j.res.Witnesses[0]
+				}
+				if got == nil {
+					inconclusive = append(inconclusive, orig.job.ID+": concrete re-run of a summarised tape produced no outcome: "+strings.Join(j.res.Inconclusive, "; "))
+					all[i].tp = nil
+					continue
+				}
+				got.Job = orig.tp.Job
+				got.Summarised = false
+				if orig.f == nil {
+					// witness
+					if gotFail != nil {
+						if def.Filter == nil || def.Filter(got.Expect.Fail) {
+							all[i] = tapeRef{got, orig.job, gotFail}
+						} else {
+							all[i].tp = nil
+						}
+					} else {
+						all[i].tp = got
+					}
+				} else {
+					if gotFail != nil && gotFail.Tape.Expect.Fail == orig.tp.Expect.Fail {
+						gotFail.Known = orig.f.Known
+						got.Kind = orig.tp.Kind
+						got.Known = orig.tp.Known
+						all[i] = tapeRef{got, orig.job, gotFail}
+					} else {
+						spurious++
+						all[i].tp = nil
+					}
+				}
+			}
+			var kept []tapeRef
+			for _, tr := range all {
+				if tr.tp != nil {
+					kept = append(kept, tr)
+				}
+			}
+			all = kept
+		}
+	}
+	if spurious > 0 {
+		inconclusive = append(inconclusive, fmt.Sprintf("%d counterexample(s) found under the uninterpreted hash summary do not fail with the real hash values of their inputs (a real counterexample may need a specific hash collision); not decided", spurious))
 	}
 
 	// ---- native replay ----
@@ -294,6 +376,9 @@ func cmdCheck(args []string) int {
 	}
 	if !replayOK {
 		inconclusive = append(inconclusive, "native replay could not be built/run")
+	}
+	for id, n := range otherProp {
+		fmt.Printf("NOTE: %d failure(s) of assertion %q were found; it belongs to another property's check and is reported there\n", n, id)
 	}
 	for _, inc := range inconclusive {
 		fmt.Println("INCONCLUSIVE:", oneLine(inc))
@@ -525,4 +610,9 @@ func pstr(m map[string]int) string {
 		fmt.Fprintf(&sb, "%s%d", k, m[k])
 	}
 	return sb.String()
+}
+
+func seedFromEnv() int {
+	s, _ := strconv.Atoi(os.Getenv("VERIF_SEED"))
+	return s
 }
